@@ -195,8 +195,8 @@ def make_letter_alphabet(rng, syms):
     how = ri(rng, 4)
     if how == 0:
         return LetterAlphabet("".join(syms))
-    if how == 1:
-        return LetterAlphabet("".join(syms).encode("ascii"))
+    if how == 1:      # (a bytes object itself is refused by the constructor: iterating it yields ints)
+        return LetterAlphabet([s.encode("ascii") for s in syms])
     if how == 2:
         return LetterAlphabet(list(syms))
     return LetterAlphabet([s.encode("ascii") if rng.random() < 0.5 else s for s in syms])
@@ -276,8 +276,8 @@ def rand_len(rng, hi=200):
         return 0
     if r < 0.16:
         return 1
-    if r < 0.7:
-        return ri(rng, 2, 25)
+    if r < 0.7 or hi <= 25:
+        return ri(rng, 2, min(25, hi + 1))
     return ri(rng, 25, hi + 1)
 
 
@@ -600,7 +600,8 @@ def case_mapper(rng, ctx):
         b = GeneralSequence(tgt)
         b.code = mapper[a.code]
         ctx.op("mapper_sequence")
-        ctx.check(str(b) == "".join(chars) == str(a), "mapper_preserves_symbol", "sequence mapped to %r, was %r" % (str(b), "".join(chars)))
+        ctx.check([str(x) for x in b.symbols] == chars == [str(x) for x in a.symbols], "mapper_preserves_symbol",
+                  "sequence mapped to %r, was %r" % ("".join(str(x) for x in b.symbols), "".join(chars)))
     # codes outside the source alphabet: memory safety is judged (ASan / exit status), the value is only counted
     bad = pick(rng, [ns, ns + 1, ns + 250, -1, -ns - 1, 2**31, 2**63 - 1])
     kind = pick(rng, ["scalar", "array", "list"])
@@ -773,7 +774,7 @@ def case_kmer(rng, ctx):
     elif what == "create_bad":
         bad = codes.astype(np.uint64 if rng.random() < 0.5 else pick(rng, fitting_dtypes([n + 3], _UINT)))
         v = pick(rng, [n, n + 1, n + 3, int(np.iinfo(bad.dtype).max)])
-        p = ri(rng, L)
+        p = ri(rng, L - span + 1) + pick(rng, pos)      # an informative position of at least one window
         bad[p] = v
         ctx.log(what, str(bad.dtype), p, v)
         ctx.mark_nontrivial()
@@ -992,8 +993,41 @@ def seq_step(ctx, rng, st):
            "bad_symbol", "setitem_mismatch"]
     if m.kind == "nuc":
         ops += ["complement"]
+    ops += ["invalid_code"]
     op = pick(rng, ops)
     ctx.op("seq_" + op)
+    if op == "invalid_code":
+        # codes >= len(alphabet) may be stored (documented: is_valid()), but must never read back as symbols
+        na = len(m.alph)
+        dtmax = int(np.iinfo(seq_dtype(na)).max)
+        cands = [v for v in (na, na + 1, dtmax) if na <= v <= dtmax]
+        if ctx.allowed("sequence_code_assignment_wraps"):
+            cands += [dtmax + 1, dtmax + 1 + ri(rng, na), -1, -dtmax - 1 + ri(rng, na), 2**32 + ri(rng, na)]
+        if not cands:
+            return
+        v = pick(rng, cands)
+        index = {s: i for i, s in enumerate(m.alph)}
+        codes = [index[s] for s in m.syms[:5]]
+        codes.insert(ri(rng, len(codes) + 1), v)
+        how = pick(rng, ["code_setter", "setitem"]) if n >= len(codes) else "code_setter"
+        ctx.log("invalid_code", how, codes)
+        c = obj.copy()
+        arr = np.array(codes, dtype=pick(rng, fitting_dtypes(codes)))
+        ctx.oracle("code_out_of_range_rejected")
+        try:
+            if how == "code_setter":
+                c.code = arr
+            else:
+                c[:len(codes)] = arr
+            valid = c.is_valid()
+            out = (str(c), list(c.symbols))
+        except (AlphabetError, OverflowError) as e:
+            ctx.exc(e)
+        else:
+            ctx.fail("code_out_of_range_rejected", "code %d (alphabet size %d) assigned via %s reads back as %s (is_valid %s)"
+                     % (v, na, how, _short(out[0]), valid))
+        ctx.mark_nontrivial()
+        return
     if op == "getitem_int":
         i = ri(rng, -n - 2, n + 2)
         idx = i if rng.random() < 0.6 else np.int64(i)
@@ -1134,7 +1168,7 @@ def seq_step(ctx, rng, st):
                     return
                 oalph = m.alph + extra
             else:
-                oalph = m.alph + [("extra", i) for i in range(ri(rng, 1, 4))]
+                oalph = m.alph + [("extra", len(m.alph) + i) for i in range(ri(rng, 1, 4))]
             om = SeqModel(m.kind, oalph, [pick(rng, oalph) for _ in range(L2)], mk(oalph))
         other = make_seq(rng, ctx, om, log=False)
         left = rng.random() < 0.5 if how != "extended_left" else False
@@ -1283,6 +1317,17 @@ def case_complement(rng, ctx):
 _ACGT_CODONS = ["".join(c) for c in itertools.product("ACGT", repeat=3)]
 
 
+def _build_table(ctx, fn, starts):
+    """An empty start codon set is a legitimate table; a refusal is reported under its own oracle id."""
+    if starts:
+        return fn()
+    ctx.oracle("table_constructible")
+    try:
+        return fn()
+    except ValueError as e:
+        ctx.fail("table_constructible", "codon table with an empty start codon set refused: %s" % e)
+
+
 def gen_table(rng, ctx):
     """-> (CodonTable, aa64 (TCAG order), set of start codons, description)"""
     kind = pick(rng, ["shipped", "shipped", "default", "random", "random", "derived"])
@@ -1309,7 +1354,8 @@ def gen_table(rng, ctx):
             new = sorted({pick(rng, nonstop) for _ in range(ri(rng, lo, 6))})
             ctx.log("table", "load", key, "with_start_codons", new)
             ctx.op("table_with_start_codons")
-            return table.with_start_codons(new if rng.random() < 0.5 else tuple(new)), aa64, set(new), "load(%r).with_start_codons(%r)" % (key, new)
+            narg = new if rng.random() < 0.5 else tuple(new)
+            return _build_table(ctx, lambda: table.with_start_codons(narg), new), aa64, set(new), "load(%r).with_start_codons(%r)" % (key, new)
         changes = {pick(rng, R.CODONS): pick(rng, R.PROT) for _ in range(ri(rng, 1, 6))}
         aa = list(aa64)
         for c, a in changes.items():
@@ -1318,9 +1364,9 @@ def gen_table(rng, ctx):
         starts = {c for c in starts if aa64n[R.codon_index(c)] != "*"}
         t2 = table.with_codon_mappings(changes)
         if len(starts) != len(R.NCBI_STARTS[tid]):
-            t2 = t2.with_start_codons(sorted(starts)) if starts or ctx.allowed("empty_start_codon_set") else None
-            if t2 is None:
+            if not starts and not ctx.allowed("empty_start_codon_set"):
                 return gen_table(rng, ctx)
+            t2 = _build_table(ctx, lambda: t2.with_start_codons(sorted(starts)), starts)
         # the parent table must not have been modified
         ctx.check(table.codon_dict() == {c: aa64[R.codon_index(c)] for c in R.CODONS}, "table_lookup",
                   "with_codon_mappings modified the original table")
@@ -1342,7 +1388,7 @@ def gen_table(rng, ctx):
     ctx.log("table", "random", R.aa64_from_dict(d), starts)
     ctx.op("table_random")
     sarg = starts if rng.random() < 0.6 else tuple(starts)
-    return CodonTable(d, sarg), R.aa64_from_dict(d), set(starts), "CodonTable(random, %r)" % (starts,)
+    return _build_table(ctx, lambda: CodonTable(d, sarg), starts), R.aa64_from_dict(d), set(starts), "CodonTable(random, %r)" % (starts,)
 
 
 def check_table_api(ctx, table, aa64, starts, desc):
@@ -1473,3 +1519,209 @@ _CASES = {
 
 def run_case(stratum, rng, ctx):
     _CASES[stratum](rng, ctx)
+
+
+# ------------------------------------------------------------------ oracle audit
+def selftest(ctx):
+    # printable set = digits + letters + punctuation (independent definition: ASCII 33..126)
+    import string
+    assert len(R.PRINTABLE) == 94 and set(R.PRINTABLE) == set(string.digits + string.ascii_letters + string.punctuation)
+    # dict codec
+    rc = R.RefCodec(["x", 5, ("a", 1), b"x"])
+    assert rc.encode([5, b"x", "x"]) == [1, 3, 0] and rc.decode([2, 2, 0]) == [("a", 1), ("a", 1), "x"]
+    for bad in (-1, 4):
+        try:
+            rc.decode([bad])
+        except IndexError:
+            pass
+        else:
+            raise AssertionError("reference decode accepted %d" % bad)
+    assert not rc.has("y") and not rc.has([1]) and rc.has(5)
+    # k-mer codes: position in the lexicographic product order; split inverts; naive windows
+    for n, k in ((1, 2), (2, 2), (2, 4), (3, 3), (4, 3), (5, 2)):
+        for i, t in enumerate(itertools.product(range(n), repeat=k)):
+            assert R.kmer_code(t, n) == i and R.kmer_split(i, n, k) == list(t)
+    assert R.naive_kmers([0, 3, 3, 2, 1, 3], 4, [0, 1]) == [3, 15, 14, 9, 7]          # documented example ATTGCT
+    assert R.naive_kmers([1, 0, 2, 3, 1], 4, [0, 2, 3]) == [R.kmer_code([1, 2, 3], 4), R.kmer_code([0, 3, 1], 4)]
+    assert R.naive_kmers([1, 2], 4, [0, 1, 2]) == []
+    # IUPAC complement = code of the set of complemented bases; involution
+    base_c = {"A": "T", "C": "G", "G": "C", "T": "A"}
+    inv = {frozenset(v): k for k, v in R.IUPAC_SETS.items()}
+    assert len(inv) == 15 and sorted(R.IUPAC_SETS) == sorted(R.NUC_AMB)
+    for k, v in R.IUPAC_SETS.items():
+        assert R.IUPAC_COMPLEMENT[k] == inv[frozenset(base_c[b] for b in v)]
+        assert R.IUPAC_COMPLEMENT[R.IUPAC_COMPLEMENT[k]] == k
+    # genetic codes
+    std = R.STANDARD_AA
+    assert len(std) == 64 and len(R.CODONS) == 64 and R.CODONS[0] == "TTT" and R.CODONS[3] == "TTG" and R.CODONS[63] == "GGG"
+    assert [R.codon_index(c) for c in R.CODONS] == list(range(64))
+    look = lambda c: std[R.codon_index(c)]
+    assert look("ATG") == "M" and look("TGG") == "W" and {c for c in R.CODONS if look(c) == "*"} == {"TAA", "TAG", "TGA"}
+    from collections import Counter
+    cnt = Counter(std)
+    assert cnt["L"] == cnt["S"] == cnt["R"] == 6 and cnt["M"] == cnt["W"] == 1 and cnt["*"] == 3 and len(cnt) == 21
+    assert all(cnt[a] == 4 for a in "AGPTV") and cnt["I"] == 3 and all(cnt[a] == 2 for a in "FYHQNKDEC")
+    assert len(R.TABLE_IDS) == 25 and set(R.NCBI_STARTS) == set(R.NCBI_DIFF) == set(R.TABLE_NAMES)
+    for tid in R.TABLE_IDS:
+        aa, starts = R.ncbi_table(tid)
+        assert len(aa) == 64 and set(aa) <= set(R.PROT) and starts <= set(R.CODONS) and "ATG" in starts
+        assert all(aa[R.codon_index(c)] != "*" for c in starts)
+        assert sum(1 for a, b in zip(aa, std) if a != b) == len({**R.NCBI_DIFF[tid], **R.SHIPPED_DATA_DEVIATION.get(tid, {})}) \
+            - sum(1 for c, a in R.NCBI_DIFF[tid].items() if look(c) == a)
+    assert R.translate_complete("AATGATGCTATAGAT", std) == "NDAID"                    # documented example
+    assert [p for _, _, p in R.orf_scan("AATGATGCTATAGAT", std, {"ATG"})] == ["MML*", "ML*"]
+    assert R.orf_scan("AATGATGCTATAGAT", std, {"ATG"})[0][:2] == (1, 13)
+    # naive ORF scan vs a second formulation on every DNA string up to length 7 (and two start sets)
+    for L in range(0, 8):
+        for tup in itertools.product("ACGT", repeat=L):
+            dna = "".join(tup)
+            for starts in ({"ATG"}, {"TTG", "CTG", "ATG", "AAA"}):
+                for met in (False, True):
+                    assert R.orf_scan(dna, std, starts, met) == R.orf_scan_bruteforce(dna, std, starts, met), dna
+    rng = np.random.default_rng(7)
+    alt = R.aa64_from_diff({"AAA": "*", "CCC": "*", "TAA": "Q"})
+    for _ in range(300):
+        dna = "".join("ACGT"[i] for i in rng.integers(0, 4, size=int(rng.integers(0, 60))))
+        assert R.orf_scan(dna, alt, {"ATG", "GGG", "ACA"}, True) == R.orf_scan_bruteforce(dna, alt, {"ATG", "GGG", "ACA"}, True)
+    # the list model's indexing conventions = numpy's on an object array
+    base = list("abcde")
+    arr = np.array(base, dtype=object)
+    for a in list(range(-7, 8)) + [None]:
+        for b in list(range(-7, 8)) + [None]:
+            for st in (None, 1, 2, -1, -2):
+                assert base[slice(a, b, st)] == arr[slice(a, b, st)].tolist()
+    for _ in range(200):
+        r = np.random.default_rng(_)
+        index, posn, bad, desc = gen_seq_index(r, 5)
+        if bad:
+            try:
+                arr[index]
+            except IndexError:
+                continue
+            raise AssertionError("numpy accepted %r" % (desc,))
+        assert arr[index].tolist() == [base[i] for i in posn], desc
+
+
+# ------------------------------------------------------------------ probes (one trigger class each)
+def _probe_wide_code(ctx):
+    """S05 class: ndarray codes outside [0, 255] given to LetterAlphabet.decode_multiple."""
+    for syms in ("ACGT", "0123456789", "".join(R.PRINTABLE)):
+        alph = LetterAlphabet(syms)
+        n = len(syms)
+        for dt in ("int16", "uint16", "int32", "int64", "uint64"):
+            for v in (256, 256 + n - 1, 2**15 - 2**15 % 256 + 1, -256, -256 + n - 1, -1, -n):
+                if not (np.iinfo(dt).min <= v <= np.iinfo(dt).max):
+                    continue
+                ctx.log("decode_multiple", syms[:12], dt, v)
+                ctx.op("probe_wide_code")
+                arr = np.array([0, v], dtype=dt)
+                reject(ctx, "code_out_of_range_rejected", "LetterAlphabet(%r...).decode_multiple(%s [0, %d])" % (syms[:12], dt, v),
+                       lambda: alph.decode_multiple(arr))
+
+
+def _probe_seq_code_wrap(ctx):
+    """Codes that do not fit the sequence's code dtype assigned through Sequence.code / seq[...] = ndarray."""
+    for v in (259, 256, -253, 2**16 + 1):
+        for how in ("code_setter", "setitem"):
+            s = NucleotideSequence("ACGTAC")
+            ctx.log(how, v)
+            ctx.op("probe_seq_code_" + how)
+            ctx.oracle("code_out_of_range_rejected")
+            try:
+                if how == "code_setter":
+                    s.code = np.array([0, v], dtype=np.int64)
+                else:
+                    s[1:3] = np.array([0, v], dtype=np.int64)
+                out = str(s)
+            except (AlphabetError, ValueError, OverflowError) as e:
+                ctx.exc(e)
+                continue
+            ctx.fail("code_out_of_range_rejected", "code %d assigned via %s reads back as %r (codes %s)" % (v, how, out, s.code.tolist()))
+
+
+def _probe_fuse_eq(ctx):
+    """S06 class: a base code equal to len(base alphabet) given to KmerAlphabet.fuse."""
+    for syms, k in (("ACGT", 2), ("ACGT", 5), ("a", 3), ("".join(R.PRINTABLE), 3)):
+        n = len(syms)
+        ka = KmerAlphabet(LetterAlphabet(syms), k)
+        for j in range(k):
+            t = [0] * k
+            t[j] = n
+            for arr in (np.array(t, dtype=np.int64), np.array([t, [0] * k], dtype=np.uint8)):
+                ctx.log("fuse", syms[:8], k, arr.tolist())
+                ctx.op("probe_fuse_eq")
+                reject(ctx, "code_out_of_range_rejected", "KmerAlphabet(%d letters, k=%d).fuse(%s)" % (n, k, arr.tolist()),
+                       lambda: ka.fuse(arr))
+
+
+def _probe_fuse_neg(ctx):
+    """Negative base codes given to KmerAlphabet.fuse."""
+    for syms, k in (("ACGT", 2), ("ACGT", 4), ("ab", 3)):
+        n = len(syms)
+        ka = KmerAlphabet(LetterAlphabet(syms), k)
+        for t in ([1] + [-1] * (k - 1), [-1] + [n - 1] * (k - 1), [0] * (k - 1) + [-n]):
+            arr = np.array(t, dtype=np.int64)
+            ctx.log("fuse", syms, k, t)
+            ctx.op("probe_fuse_neg")
+            reject(ctx, "code_out_of_range_rejected", "KmerAlphabet(%r, %d).fuse(%s)" % (syms, k, t), lambda: ka.fuse(arr))
+
+
+def _probe_fuse_big(ctx):
+    """fuse(split(x)) for k-mer codes above 2^53 (split returns uint64; uint64 * int64 -> float64)."""
+    for n, k in ((94, 9), (64, 10), (50, 10)):
+        ka = KmerAlphabet(LetterAlphabet(R.PRINTABLE[:n]), k)
+        for x in (n**k - 2, 2**53 + 1, n**k // 3 * 2 + 1):
+            ctx.log("fuse(split)", n, k, x)
+            ctx.op("probe_fuse_big")
+            sp = ka.split(x)
+            ctx.check([int(v) for v in sp] == R.kmer_split(x, n, k), "kmer_fuse_split", "split(%d) = %s" % (x, sp.tolist()))
+            fs = ka.fuse(sp)
+            ctx.check(int(fs) == x, "kmer_fuse_split", "n=%d k=%d: fuse(split(%d)) = %r (dtype %s)" % (n, k, x, fs, getattr(fs, "dtype", "?")))
+
+
+def _probe_multichar(ctx):
+    """Multi-character strings are symbols outside a letter alphabet; they must not be truncated to their first letter."""
+    alph = LetterAlphabet("ACGT")
+    cases = [
+        ("encode_multiple(list)", lambda: alph.encode_multiple(["AC", "G"])),
+        ("encode_multiple(ndarray U2)", lambda: alph.encode_multiple(np.array(["AC", "G"]))),
+        ("encode_multiple(tuple)", lambda: alph.encode_multiple(("G", "TTT"))),
+        ("GeneralSequence(list)", lambda: str(GeneralSequence(alph, ["A", "CG"]))),
+        ("NucleotideSequence(list)", lambda: str(NucleotideSequence(["AC", "G"]))),
+        ("ProteinSequence(list)", lambda: str(ProteinSequence(["AL", "G"]))),
+    ]
+    for what, fn in cases:
+        ctx.log(what)
+        ctx.op("probe_multichar")
+        reject(ctx, "symbol_out_of_alphabet_rejected", what, fn)
+
+
+def _probe_empty_starts(ctx):
+    """A codon table with an empty start codon set is a codon table: no ORFs, complete translation unaffected."""
+    aa64, _ = R.ncbi_table(1)
+    d = {c: aa64[i] for i, c in enumerate(R.CODONS)}
+    for what, mk in (("CodonTable(dict, [])", lambda: CodonTable(d, [])),
+                     ("load(1).with_start_codons([])", lambda: CodonTable.load(1).with_start_codons([]))):
+        ctx.log(what)
+        ctx.op("probe_empty_starts")
+        ctx.oracle("table_constructible")
+        try:
+            table = mk()
+        except Exception as e:
+            ctx.fail("table_constructible", "%s raised %s: %s" % (what, type(e).__name__, e))
+        s = NucleotideSequence("ATGAAATAA")
+        ctx.check(str(s.translate(complete=True, codon_table=table)) == "MK*", "translate_vs_lookup", what)
+        prots, pos = s.translate(codon_table=table)
+        ctx.check(list(prots) == [] and list(pos) == [], "orf_vs_naive", "%s: ORFs %r" % (what, pos))
+        ctx.check(tuple(table.start_codons()) == (), "table_lookup", "%s: start_codons() %r" % (what, table.start_codons()))
+
+
+PROBES = {
+    "wide_code_wraps_uint8": _probe_wide_code,
+    "sequence_code_assignment_wraps": _probe_seq_code_wrap,
+    "fuse_code_equals_len": _probe_fuse_eq,
+    "fuse_negative_code": _probe_fuse_neg,
+    "fuse_split_roundtrip_above_2p53": _probe_fuse_big,
+    "multichar_symbol_truncated": _probe_multichar,
+    "empty_start_codon_set": _probe_empty_starts,
+}
